@@ -9,14 +9,16 @@
    "un":    UnknownNode(rw, ro, deep) over a set of cap strings of every interesting shape.
    The invariants state C16 on the tables themselves. *)
 EXTENDS Caps, Json, IOUtils, SequencesExt
+KD == INSTANCE KeyDerivation
+CONSTANT UNKinds     \* kinds whose canonical strings are among the strings given to UnknownNode
 
 AllegedPfx == {<<>>, <<"ro.">>, <<"imm.">>}
 \* bodies of caps of formats this version does not know
 FutureStrs == {<<"Q:URI:FOO:", "L6">>, <<FutureW, "L6">>, <<FutureM, "L6">>}
 
 (* ---- attenuation table ---- *)
-Flags(k) == IF k = "None" THEN [kind |-> "None", ro |-> FALSE, mut |-> FALSE]
-            ELSE [kind |-> k, ro |-> IsReadonly(k), mut |-> IsMutable(k)]
+Flags(k) == IF k = "None" THEN [kind |-> "None", ro |-> FALSE, mut |-> FALSE, lvl |-> 0]
+            ELSE [kind |-> k, ro |-> IsReadonly(k), mut |-> IsMutable(k), lvl |-> Level(k)]
 Atten(k) ==
   LET rk == ReadonlyKind(k)  vk == VerifyKind(k) IN
   [t |-> "atten", toks |-> Skeleton(k), self |-> Flags(k),
@@ -52,7 +54,6 @@ CtxCases == {Ctx(b, pre, deep, sl) : b \in {Skeleton(k) : k \in Kinds} \cup Futu
                                      pre \in AllegedPfx, deep \in BOOLEAN, sl \in {"w", "r", "wr"}}
 
 (* ---- UnknownNode table ---- *)
-UNKinds == {"SSK", "SSK-RO", "CHK", "SSK-Verifier", "DIR2", "LIT"}
 UNBodies == FutureStrs \cup {Skeleton(k) : k \in UNKinds} \cup {<<KindAtom("SSK"), "b">>}
 UNStrs == {pre \o b : pre \in AllegedPfx, b \in UNBodies} \cup {<<>>}
 UNSlots == {None} \cup {Some(ts) : ts \in UNStrs}      \* at token level
@@ -66,6 +67,7 @@ UNCase(rw, ro, deep) ==
 UNCases == {UNCase(rw, ro, deep) : rw \in UNSlots, ro \in UNSlots, deep \in BOOLEAN}
 
 ASSUME JsonSerialize(IOEnv.TOK_FILE, TokenTable)
+ASSUME JsonSerialize(IOEnv.KD_FILE, KD!Deriv)
 ASSUME ndJsonSerialize(IOEnv.OUT_FILE, SetToSeq(AttenCases) \o SetToSeq(CtxCases) \o SetToSeq(UNCases))
 
 VARIABLES c, phase
@@ -98,6 +100,17 @@ C16_NoLeak ==
   Is("atten") =>
     /\ (Level(c.readonly.kind) < Level(c.self.kind) => Reveals(c.ro_fields) \cap c.secret = {})
     /\ (c.verify.kind # "None" /\ Level(c.verify.kind) < Level(c.self.kind) => Reveals(c.v_fields) \cap c.secret = {})
+\* the derivations named in the field terms are those of KeyDerivation.tla, applied to the value they are
+\* defined on, and the weaker cap's secret is not something from which the stronger one can be computed
+RECURSIVE DNames(_)
+DNames(t) == IF t.op = "d" THEN {t.name} \cup DNames(t.arg) ELSE {}
+C16_Derivations ==
+  Is("atten") =>
+    /\ \A i \in 1..Len(c.ro_fields) : DNames(c.ro_fields[i]) \subseteq KD!Names
+    /\ \A i \in 1..Len(c.v_fields) : DNames(c.v_fields[i]) \subseteq KD!Names
+    /\ "ssk_writekey" \notin KD!Derivable(KD!SSKReadCap \cup KD!Public)
+    /\ "ssk_readkey" \notin KD!Derivable(KD!SSKVerifyCap \cup KD!Public)
+    /\ "chk_key" \notin KD!Derivable(KD!CHKVerifyCap \cup KD!Public)
 \* alleged read-only is never writeable, alleged immutable / deep-immutable context never mutable
 AllegedRO == c.toks # <<>> /\ c.toks[1] \in {"ro.", "imm."}
 AllegedImm == (c.toks # <<>> /\ c.toks[1] = "imm.") \/ c.deep
